@@ -101,6 +101,28 @@ func (Authorization) Check(t *explore.Transition) ([]V, bool) {
 			bad("multisig-accepted-without-authorisation", why)
 		}
 	}
+	// an accepted EditMultisig makes the wallet exactly what the owners signed: threshold, owners and
+	// the weight of each owner (who may authorise the wallet from now on is the subject of this property)
+	if inf.Type == transaction.TypeEditMultisig && r.Resp.Code == 0 {
+		if d, ok := inf.Tx.GetDecodedData().(*transaction.EditMultisigData); ok {
+			want := fmt.Sprintf("%d", d.Threshold)
+			for i := range d.Addresses {
+				want += fmt.Sprintf(" %s=%d", d.Addresses[i].String(), d.Weights[i])
+			}
+			got := "none"
+			for _, a := range t.Cur.Final().Export.Accounts {
+				if a.Address == inf.Sender && a.MultisigData != nil {
+					got = fmt.Sprintf("%d", a.MultisigData.Threshold)
+					for i := range a.MultisigData.Addresses {
+						got += fmt.Sprintf(" %s=%d", a.MultisigData.Addresses[i].String(), a.MultisigData.Weights[i])
+					}
+				}
+			}
+			if got != want {
+				bad("edit-multisig-accepted-but-wallet-differs", fmt.Sprintf("signed: %s; wallet afterwards: %s", want, got))
+			}
+		}
+	}
 	isTrade := false
 	switch inf.Type {
 	case transaction.TypeSellSwapPool, transaction.TypeBuySwapPool, transaction.TypeSellAllSwapPool:
